@@ -86,3 +86,34 @@ def summarize(results):
         k = r["outcome"] + ("/" + r.get("tail", "") if r.get("tail") not in (None, "clean") else "")
         c[k] = c.get(k, 0) + 1
     return c
+
+
+FREERUN = os.path.join(HARNESS, "target", "release", "freerun")
+
+
+def freerun(inst, progs, d, seed=1, tag="free", hard_timeout=900):
+    """run the given programs (list of {client: ops}) freely on OS threads; returns (results, trace path)"""
+    doc = {"config": instances.harness_config(inst), "runs": [{"id": i, "prog": p} for i, p in enumerate(progs)]}
+    path = os.path.join(d, tag + ".json")
+    json.dump(doc, open(path, "w"))
+    trace_path = os.path.join(d, tag + ".trace.ndjson")
+    if os.path.exists(trace_path):
+        os.remove(trace_path)
+    results = []
+    start = 0
+    t_end = time.time() + hard_timeout
+    while start < len(progs) and time.time() < t_end:
+        cmd = [FREERUN, path, "--trace", trace_path, "--seed", str(seed), "--from", str(start)]
+        try:
+            p = subprocess.run(cmd, stdout=subprocess.PIPE, stderr=subprocess.PIPE, text=True,
+                               timeout=max(5, t_end - time.time()))
+            out, rc = p.stdout, p.returncode
+        except subprocess.TimeoutExpired as ex:
+            out = ex.stdout.decode() if isinstance(ex.stdout, bytes) else (ex.stdout or "")
+            rc = -9
+        got = [json.loads(l) for l in out.splitlines() if l.startswith("{")]
+        results += got
+        if rc == 0:
+            break
+        start = (got[-1]["index"] + 1) if got else start + 1
+    return results, trace_path
